@@ -142,6 +142,13 @@ def execOp (chk : Bool) (tok : List String) : String :=
   | ["ntt_mul", a, b] =>
       let va := parseNats a; let vb := parseNats b; let d := Ntt.log2 va.length
       renderRes renderInts (Ntt.intt d (Ntt.hadamard (Ntt.ntt d va) (Ntt.ntt d vb)))
+  | ["intt_conv", v, w] =>
+      let vv := parseNats v; let vw := parseNats w; let d := Ntt.log2 vv.length
+      renderRes (fun o => o) (do
+        let p ← Ntt.intt d (Ntt.hadamard vv vw)
+        let a ← Ntt.intt d vv
+        let b ← Ntt.intt d vw
+        pure s!"{renderInts p} {renderInts a} {renderInts b}")
   | ["ref_negacyc", a, b] => let va := parseNats a; renderInts (Ntt.negacyc va.length va (parseNats b))
   | ["salt_binds", _, _] => "skip"
   | ["hash_to_point", n, hx] =>
